@@ -177,6 +177,7 @@ func (ctx *Ctx) contractOf(fn *ssa.Function) *Contract {
 				c.Requires = append(append([]*Clause{}, sc.Requires...), c.Requires...)
 				c.Ensures = append(c.Ensures, sc.Ensures...)
 				c.Assumes = append(c.Assumes, sc.Assumes...)
+				c.Defines = append(c.Defines, sc.Defines...)
 				if c.Assigns == nil && sc.Assigns != nil {
 					c.Assigns = sc.Assigns
 				}
@@ -201,7 +202,7 @@ func (ctx *Ctx) schemasFor(fn *ssa.Function) []*Schema {
 		}
 		full := tn + "." + fn.Name()
 		for _, s := range ctx.cs.Schemas {
-			if s.Method && s.Pkg == fn.Pkg.Pkg.Path() && s.Re.MatchString(fn.Name()) && (s.Except == nil || !s.Except.MatchString(full)) {
+			if s.Method && s.Pkg == fn.Pkg.Pkg.Path() && s.Re.MatchString(fn.Name()) && (s.Except == nil || !s.Except.MatchString(full)) && (s.Only == nil || s.Only.MatchString(full)) {
 				out = append(out, s)
 			}
 		}
@@ -238,7 +239,7 @@ func (ctx *Ctx) methodSchema(m *types.Func) *Schema {
 		return nil
 	}
 	for _, s := range ctx.cs.Schemas {
-		if s.Method && s.Pkg == m.Pkg().Path() && s.Re.MatchString(m.Name()) {
+		if s.Method && s.Only == nil && s.Pkg == m.Pkg().Path() && s.Re.MatchString(m.Name()) {
 			return s
 		}
 	}
@@ -308,6 +309,7 @@ func (ctx *Ctx) synthContract(fn *ssa.Function) *Contract {
 		c.Requires = append(c.Requires, sch.C.Requires...)
 		c.Ensures = append(c.Ensures, sch.C.Ensures...)
 		c.Assumes = append(c.Assumes, sch.C.Assumes...)
+		c.Defines = append(c.Defines, sch.C.Defines...)
 		if sch.C.Assigns != nil && c.Assigns == nil {
 			c.Assigns = sch.C.Assigns
 		}
@@ -456,13 +458,20 @@ func (ctx *Ctx) autoInline(fn *ssa.Function) bool {
 	if fn.Blocks == nil || !ctx.isRepoFunc(fn) {
 		return false
 	}
+	// implementations of abstract pure methods (Size, Type, ...) are inlined when loop-free, calls and all: what they call is
+	// inlined or used by contract in turn
+	absImpl := fn.Signature.Recv() != nil && fn.Pkg != nil && ctx.cs.AbsMethods[fn.Pkg.Pkg.Path()+"."+fn.Name()] && fn.Signature.Params().Len() == 0
 	n := 0
 	for _, b := range fn.Blocks {
 		for _, in := range b.Instrs {
 			switch in.(type) {
 			case *ssa.DebugRef:
 				continue
-			case *ssa.Call, *ssa.Defer, *ssa.Go, *ssa.MakeClosure:
+			case *ssa.Call:
+				if !absImpl {
+					return false
+				}
+			case *ssa.Defer, *ssa.Go, *ssa.MakeClosure:
 				return false
 			}
 			n++
@@ -473,7 +482,7 @@ func (ctx *Ctx) autoInline(fn *ssa.Function) bool {
 			}
 		}
 	}
-	return n <= 24
+	return n <= 24 || (absImpl && n <= 200)
 }
 
 func (ctx *Ctx) devirt(name string) *ssa.Function {
